@@ -185,7 +185,7 @@ def run(ctx):
             if not hit or extra:
                 raise vlib.MachineryError("binding self-test failed: corrupted event %d not rejected as expected (%s)" % (k + 1, sres["bad"][-3:]))
 
-    nontrivial = sum(1 for r in rows if r["call"] == "invoked" and len(r["a"]) >= 1) + res["invoked"]
+    nontrivial = sum(1 for r in rows if r["call"] == "invoked" and len(r["a"]) >= 1 and r["reg"] != "refused")
     ctx.cover(
         traces_validated_against_impl=len(rows) + res["lines"],
         table_rows_replayed=len(rows), table_rows_accepted=stats.get("reg_ok", 0), table_rows_refused=stats.get("reg_refused", 0),
@@ -194,7 +194,8 @@ def run(ctx):
         distinct_signatures_replayed=len({json.dumps(r["s"], sort_keys=True) for r in rows}),
         random_rows=res["lines"], random_rows_accepted=res["accepted"], random_rows_invoked=res["invoked"],
         evaluations=len(rows) + res["lines"], distinct_nontrivial=nontrivial,
-        rule="row = (signature, argument list, probe return); non-trivial = the probe is invoked with at least one converted argument",
+        rule="row = (signature, argument list, probe return); non-trivial = distinct enumerated table rows on which the probe must be "
+             "invoked with at least one converted argument (random rows are counted separately in random_rows_invoked)",
         violations_by_class=dict(rep.per), suppressed_duplicates=rep.suppressed,
         exhaustive=True, nonvacuity=nonvac, binding_selftest=selftest, samples=samples,
     )
